@@ -153,7 +153,132 @@ pub fn check(bc: &BuildCase, fam: &str, obs: &mut Obs) -> Result<(), Fail> {
     Ok(())
 }
 
+/// The JS/WASM entry points build symbols too: the level physically encoded by `qr(content)` and by
+/// `qr_svg(content, options)` must be the level given through the options, and Q when none is given - whatever the
+/// other options (shape, margin, embedded image, forced version) are. The matrix is recovered from the exported bytes /
+/// from the drawn sub-paths of the SVG and its format information is decoded with the reference BCH code.
+pub fn check_wasm(c: &WasmCase, obs: &mut Obs) -> Result<(), Fail> {
+    use fast_qr::verif_wasm_host as wasm;
+    let level_of_matrix = |vals: &[bool], n: usize| -> Option<(Level, u8)> {
+        let v = version_from_size(n)?;
+        let g = geometry(v);
+        let mut w = 0u16;
+        for i in 0..15 {
+            let (r, cc) = g.format_pos[0][i];
+            if vals[r * n + cc] {
+                w |= 1 << i;
+            }
+        }
+        refmodel::geom::format_decode_strict(w).map(|(lb, m)| (Level::from_format_bits(lb), m))
+    };
+    let want = c.level.unwrap_or(Level::Q);
+    // qr(content): always the default level
+    let bytes = crate::engine::catch(|| wasm::qr(&c.content)).map_err(|p| Fail { sig: crate::engine::panic_sig(&p), msg: format!("wasm qr() panicked: {}", p) })?;
+    if !bytes.is_empty() {
+        let n = (bytes.len() as f64).sqrt() as usize;
+        if n * n == bytes.len() {
+            let vals: Vec<bool> = bytes.iter().map(|&b| b == 1).collect();
+            if let Some((l, _)) = level_of_matrix(&vals, n) {
+                ensure!(l == Level::Q, "wasm_default_level", "wasm qr({:?}) encodes level {} - no level can be given there, so it must be Q", c.content, l.name());
+            }
+        }
+    }
+    let svg = crate::engine::catch(|| {
+        let mut o = wasm::SvgOptions::new();
+        if let Some(m) = c.margin {
+            o = o.margin(m);
+        }
+        if let Some(s) = c.shape {
+            o = o.shape(crate::svgcase::SHAPES[s]);
+        }
+        if let Some(i) = &c.image {
+            o = o.image(i.clone());
+        }
+        if let Some(l) = c.level {
+            o = o.ecl(crate::fq::f_level(l));
+        }
+        if let Some(v) = c.version {
+            o = o.version(crate::fq::f_version(v));
+        }
+        wasm::qr_svg(&c.content, o)
+    })
+    .map_err(|p| Fail { sig: crate::engine::panic_sig(&p), msg: format!("wasm qr_svg() panicked: {}", p) })?;
+    if svg.is_empty() {
+        obs.label("wasm:not_encodable");
+        return Ok(());
+    }
+    let doc = roxmltree::Document::parse(&svg).map_err(|e| Fail { sig: "wasm_svg_ill_formed".into(), msg: format!("qr_svg output is not well-formed: {}", e) })?;
+    let root = doc.root_element();
+    let side: usize = root.attribute("viewBox").and_then(|v| v.split_whitespace().nth(2).and_then(|x| x.parse().ok())).ok_or_else(|| Fail { sig: "wasm_viewbox".into(), msg: "no viewBox".into() })?;
+    let margin = c.margin.unwrap_or(4);
+    ensure!(side > 2 * margin, "wasm_viewbox", "viewBox side {} with margin {}", side, margin);
+    let n = side - 2 * margin;
+    let mut vals = vec![false; n * n];
+    if let Some(p) = root.children().find(|x| x.is_element() && x.tag_name().name() == "path") {
+        let subs = crate::svgpath::parse(p.attribute("d").unwrap_or("")).map_err(|e| Fail { sig: "wasm_path".into(), msg: e })?;
+        for sp in subs {
+            let (cx, cy) = sp.centre();
+            let (x, y) = (cx.floor() as i64 - margin as i64, cy.floor() as i64 - margin as i64);
+            if x >= 0 && y >= 0 && (x as usize) < n && (y as usize) < n {
+                vals[y as usize * n + x as usize] = true;
+            }
+        }
+    }
+    match level_of_matrix(&vals, n) {
+        Some((l, _)) => {
+            ensure!(
+                l == want,
+                if c.level.is_some() { "wasm_level" } else { "wasm_default_level" },
+                "wasm qr_svg: the symbol encodes level {} but {} ({:?})",
+                l.name(),
+                match c.level { Some(x) => format!("level {} was set on the options", x.name()), None => "no level was set, so it must be Q".to_string() },
+                c
+            );
+        }
+        None => return crate::engine::fail("wasm_format_unreadable", format!("format information of the symbol drawn by qr_svg is not a BCH codeword ({:?})", c)),
+    }
+    obs.label(&format!("wasm:level_{}", if c.level.is_some() { "set" } else { "default" }));
+    obs.label(&format!("wasm:image_{}", c.image.is_some()));
+    obs.nontrivial(crate::engine::hash_bytes(format!("{:?}", c).as_bytes()));
+    Ok(())
+}
+
+#[derive(Clone, Debug)]
+pub struct WasmCase {
+    pub content: String,
+    pub level: Option<Level>,
+    pub version: Option<usize>,
+    pub margin: Option<usize>,
+    pub shape: Option<usize>,
+    pub image: Option<String>,
+}
+
+fn wasm_json(c: &WasmCase) -> Value {
+    json!({"wasm": true, "content": c.content, "level": c.level.map(|l| l.name()), "version": c.version, "margin": c.margin, "shape": c.shape, "image": c.image})
+}
+
+fn wasm_from(v: &Value) -> Option<WasmCase> {
+    Some(WasmCase {
+        content: v.get("content")?.as_str()?.to_string(),
+        level: match v.get("level").and_then(|x| x.as_str()) {
+            Some("L") => Some(Level::L),
+            Some("M") => Some(Level::M),
+            Some("Q") => Some(Level::Q),
+            Some("H") => Some(Level::H),
+            _ => None,
+        },
+        version: v.get("version").and_then(|x| x.as_u64()).map(|x| x as usize),
+        margin: v.get("margin").and_then(|x| x.as_u64()).map(|x| x as usize),
+        shape: v.get("shape").and_then(|x| x.as_u64()).map(|x| x as usize),
+        image: v.get("image").and_then(|x| x.as_str()).map(|x| x.to_string()),
+    })
+}
+
 pub fn replay(_e: &Engine, case: &Value, obs: &mut Obs) -> Result<(), Fail> {
+    if case.get("wasm").is_some() {
+        let c = wasm_from(case).ok_or_else(|| Fail { sig: "bad_replay".into(), msg: "cannot parse case".into() })?;
+        return check_wasm(&c, obs);
+    }
     let b = BuildCase::from_json(case).ok_or_else(|| Fail { sig: "bad_replay".into(), msg: "cannot parse case".into() })?;
     check(&b, "replay", obs)
 }
@@ -218,6 +343,27 @@ pub fn run(e: &'static Engine) {
             jc.run_prop(2 << 20, &strat, total / shards, |(c, _, _)| c.to_json(), |(c, fam, _), o| {
                 o.label("part:auto_mask_small");
                 check(c, fam, o)
+            });
+        }));
+    }
+    e.par(jobs);
+    // the same truthfulness through the JS/WASM entry points (host-compiled through the guarded hook)
+    let total: u32 = e.tier.pick(3200, 48000);
+    let mut jobs: Vec<Job> = Vec::new();
+    for _ in 0..shards {
+        jobs.push(Box::new(move |jc: &mut JobCtx| {
+            let strat = (
+                prop_oneof!["[ -~]{0,40}", "[0-9]{0,60}", "[0-9A-Z $%*+./:-]{0,50}", crate::gens::realistic_payload().prop_map(|b| String::from_utf8_lossy(&b).into_owned())],
+                prop_oneof![2 => Just(None), 3 => (0usize..4).prop_map(|l| Some(Level::from_index(l)))],
+                prop_oneof![3 => Just(None), 1 => (1usize..=12).prop_map(Some)],
+                prop_oneof![Just(None), (0usize..=8).prop_map(Some)],
+                prop_oneof![Just(None), (0usize..6).prop_map(Some)],
+                prop_oneof![1 => Just(None), 1 => Just(Some("logo.png".to_string())), 1 => Just(Some("https://example.com/i.png".to_string()))],
+            )
+                .prop_map(|(content, level, version, margin, shape, image)| WasmCase { content, level, version, margin, shape, image });
+            jc.run_prop(3 << 20, &strat, total / shards, wasm_json, |c, o| {
+                o.label("part:wasm_entry_points");
+                check_wasm(c, o)
             });
         }));
     }
